@@ -483,6 +483,31 @@ def _k_schema_dtype(family, case, disc):
     return disc.kind in ("yaml-emit-failed:RepresenterError", "json-emit-failed:TypeError")
 
 
+def _temporal_bounds_without_temporal_dtype(case):
+    spec = case.get("schema") or case.get("spec") or case
+    for c in spec.get("columns", []):
+        if c.get("cclass") in ("dt", "td") and c.get("checks"):
+            return True
+    for ch in spec.get("checks", []):
+        if any(isinstance(v, dict) and ("ts" in v or "td" in v) or
+               (isinstance(v, list) and any(isinstance(x, dict) and ("ts" in x or "td" in x) for x in v))
+               for v in ch.get("args", {}).values()):
+            return True
+    return False
+
+
+@known.finding("C12/temporal-check-values-without-temporal-dtype-not-serialisable")
+def _k_temporal_no_dtype(family, case, disc):
+    """check statistics are converted to text / integers only when the component's own dtype is datetime / timedelta:
+    Timestamp / Timedelta bounds on a column that declares no dtype (or on the dataframe-level checks) reach the YAML /
+    JSON writer as pandas objects"""
+    if not _temporal_bounds_without_temporal_dtype(case):
+        return False
+    d = disc.detail if isinstance(disc.detail, dict) else {}
+    return disc.kind in ("yaml-emit-failed:RepresenterError", "json-emit-failed:TypeError") and \
+        any(w in str(d.get("msg")) for w in ("Timestamp", "Timedelta"))
+
+
 @known.finding("C12/unique_values_eq-frozenset-statistics")
 def _k_uve(family, case, disc):
     if "unique_values_eq" not in _feats(case):
